@@ -54,7 +54,7 @@ ESC = b'\x1d'
 
 def shards(tier):
     q = tier == 'quick'
-    return [{'kind': 'interact', 'n': 40 if q else 500} for _ in range(16)]
+    return [{'kind': 'interact', 'n': 80 if q else 500} for _ in range(16)]
 
 
 FILTERS = {
@@ -67,7 +67,8 @@ FILTERS = {
 
 @st.composite
 def cases(draw, want_logs=False):
-    text_mode = draw(st.booleans())
+    # with log files attached (C11) the unicode-mode sessions, where logging has to decode, are preferred
+    text_mode = draw(st.sampled_from([True, True, True, False])) if want_logs else draw(st.booleans())
     esc_mode = draw(st.sampled_from(['absent', 'first', 'middle', 'middle', 'last', 'repeated', 'repeated', 'none', 'custom']))
     alphabet = [bytes([i]) for i in range(256) if i != 0x1d] if not text_mode else \
         [b'a', b'x', b'Z', b' ', b'\r', b'\n', 'é'.encode('utf-8'), '€'.encode('utf-8'), b'\x03', b'\x04', b'\x1b', b'\x00']
@@ -102,7 +103,9 @@ def cases(draw, want_logs=False):
     outs = draw(st.lists(st.one_of(st.builds(b''.join, st.lists(st.sampled_from([b'o', b'k', b'\r\n', b'\xc3\xa9', b'q']), min_size=1, max_size=10)),
                                    st.just(b'B' * 2500), st.sampled_from([b'x', b'xxx']),       # vanish under the drop-x filter
                                    st.sampled_from([b'o\xc3', b'\xa9k', b'\xe2\x82', b'\xac'])),  # halves of a character
-                         min_size=0, max_size=5))
+                         min_size=2 if want_logs else 0, max_size=5))
+    if want_logs and text_mode and draw(st.booleans()):
+        outs = [draw(st.sampled_from([b'o\xc3', b'\xe2\x82'])) if i % 2 == 0 else o for i, o in enumerate(outs)]
     # a character whose first half was written must be completed by the next write
     fixed = []
     for o in outs:
@@ -120,7 +123,7 @@ def cases(draw, want_logs=False):
     if fixed and fixed[-1].endswith(b'\xe2\x82'):
         fixed.append(b'\xac')
     outs = fixed
-    if text_mode and draw(st.booleans()):
+    if text_mode and (want_logs or draw(st.booleans())):
         # type some characters in two halves (two writes, with the child's output in between)
         split = []
         for p_ in pieces:
